@@ -85,6 +85,10 @@ impl<'a> Gen<'a> {
         Gen { rng, scopes: vec![vec![]], counter: 0, in_loop: 0, in_def: 0, fail_rate: 12, budget: 60 }
     }
 
+    pub fn set_fail_rate(&mut self, r: u64) {
+        self.fail_rate = r;
+    }
+
     fn fresh(&mut self, p: &str) -> String {
         self.counter += 1;
         format!("{}{}", p, self.counter)
